@@ -500,6 +500,10 @@ func init() {
 	E("errors.Is", func(fr *frame, args []value) value {
 		err, target := args[0], args[1]
 		b := fr.i.path.bank()
+		// file-system errors of the model: a "no such file" path error matches os.ErrNotExist
+		if tv, ok := target.(iface); ok && tv.t == errorType && tv.v == "file does not exist" && isNotExistErr(err) {
+			return true
+		}
 		for depth := 0; depth < 16; depth++ {
 			if isNilIface(err) {
 				return isNilIface(target)
